@@ -34,6 +34,10 @@ func storageTrapAll(inflowMass, storageInflow, storageOutflow, storageVolume dat
 	trappedMass, outflowMass data.ND1Float64) (storedMass float64) {
 
 	trappedMass.CopyFrom(inflowMass)
+	if trappedMass.Len(0) == 0 {
+		// no timesteps: nothing is released, the stored mass is carried over
+		return initialStoredMass
+	}
 
 	idx := []int{0}
 	trappedMass.Set(idx, trappedMass.Get(idx)+initialStoredMass)
